@@ -122,6 +122,8 @@ CONFIGS = [
     # (fixed C08.F27: resetSasl used to add 'sasl' to the class attribute REQUEST_CAPABILITIES shared by all networks)
     {'name': 'nosasl-next-to-a-sasl-network', 'user': '', 'pw': '', 'mechs': ['plain'], 'required': False, 'other_network_has_sasl': True},
     {'name': 'required-nosasl-next-to-a-sasl-network', 'user': '', 'pw': '', 'mechs': ['plain'], 'required': True, 'other_network_has_sasl': True},
+    # the same network after its SASL credentials were removed and the driver reconnected (it negotiated with credentials before)
+    {'name': 'nosasl-after-credentials-were-removed', 'user': '', 'pw': '', 'mechs': ['plain'], 'required': False, 'had_credentials_before': True},
 ]
 
 
@@ -152,10 +154,29 @@ class Rig:
             o = irclib.Irc('netb', callbacks=[])
             if o in world.ircs:
                 world.ircs.remove(o)
+            # ... and that network NEGOTIATES first: the end of a CAP LS and a CAP NEW (where the wanted set is computed)
+            o.driver = StubDriver(o, [], secure, drivers)
+            for a in (('*', 'LS', 'sasl batch'), ('*', 'ACK', 'batch sasl'), ('*', 'NEW', 'away-notify')):
+                m = ircmsgs.IrcMsg(prefix='irc.example.org', command='CAP', args=a)
+                try:
+                    o.dispatchCommand(m.command, m.args)(m)
+                except Exception:
+                    pass
+        self.class_caps = set(irclib.Irc.REQUEST_CAPABILITIES)      # must be the same when the rig is closed
         self.log = []
+        if cfg.get('had_credentials_before'):
+            net.sasl.username.setValue('someone'); net.sasl.password.setValue('else')
         irc = irclib.Irc('test', callbacks=[])
         self.irc = irc
         irc.driver = StubDriver(irc, self.log, secure, drivers)
+        if cfg.get('had_credentials_before'):
+            for a in (('*', 'LS', 'sasl batch'), ('*', 'NEW', 'away-notify')):
+                m = ircmsgs.IrcMsg(prefix='irc.example.org', command='CAP', args=a)
+                try:
+                    irc.dispatchCommand(m.command, m.args)(m)
+                except Exception:
+                    pass
+            net.sasl.username.setValue(cfg['user']); net.sasl.password.setValue(cfg['pw'])
         orig = irc.sendMsg
 
         def sendMsg(msg):
@@ -183,6 +204,7 @@ class Rig:
 
     def close(self):
         irclib, conf, ircmsgs, ircutils, ircdb, drivers = self.mods
+        self.class_caps_after = set(irclib.Irc.REQUEST_CAPABILITIES)
         ircdb.IrcNetwork.addStsPolicy = self._saved_add
         import supybot.world as world
         if self.irc in world.ircs:
@@ -630,8 +652,16 @@ def run_sequence(ctx, mods, cfgi, secure, seq, model=True, kind='seq', oracle=No
                           'detail': 'against a protocol-conformant server (%s) the bot is neither CONNECTED nor has it dropped the connection: %s; '
                                     'fsm=%d after %d rounds (bound %d)' % ('CAP-aware' if game.srv[0] else 'without CAP', game.verdict, last[0],
                                                                            game.rounds, game.bound)})
+        wanted_now = rig.irc._wantedCapabilities() if hasattr(rig.irc, '_wantedCapabilities') else rig.irc.REQUEST_CAPABILITIES
+        if 'sasl' in wanted_now and not rig.wcfg[2]:
+            extra.append({'step': max(idx, 0), 'kind': 'wants-sasl-without-credentials',
+                          'detail': "this network has no usable SASL mechanism, yet 'sasl' is now among the capabilities it will request: %r" % sorted(wanted_now)})
     finally:
         rig.close()
+    if rig.class_caps_after != rig.class_caps:
+        extra.append({'step': 0, 'kind': 'class-capabilities-mutated',
+                      'detail': 'Irc.REQUEST_CAPABILITIES (class attribute, shared by every network) changed during the run: +%r -%r'
+                                % (sorted(rig.class_caps_after - rig.class_caps), sorted(rig.class_caps - rig.class_caps_after))})
     if game and model:
         outs = ctx.model([[7, [game.srv, game.plan, game.k, game.choices, h]] if (game.k or game.plan) else [5, [game.srv, game.choices, h]]
                           for h, _ in game.calls])
